@@ -6,6 +6,8 @@ TTL_MS = 1000
 EVENT_KEYS = [PREFIX + b"/events/e1", PREFIX + b"/events/e2", PREFIX + b"/events/ns/e3"]
 LOOKALIKES = [PREFIX + b"/pods/events/p1", PREFIX + b"/eventsx/q", PREFIX + b"/events", PREFIX + b"/a/events/x",
               PREFIX + b"/pods/p2"]
+# the ttl timers of the in-memory engine (KB.MemTTL): theorems about the model the `engine` suite runs
+EXTRA_PROP_MODULES = [("KB.Props.C17Mem", "KB.C17Mem")]
 
 
 def is_event(k):
@@ -112,6 +114,201 @@ def renew_oracle(case):
             return ("line %d: a guarded update with the revision of the newest change of a young Event fails (%s): its index "
                     "was removed by the timer of an older write" % (i + 1, out), "young-event-removed")
     return None
+
+
+# ---------------------------------------------------------------- the in-memory engine's ttl timers (engine suite)
+
+ENGINE_TTL_ENGINES = ["memkv", "metrics-memkv"]
+ETTL_KEYS = [b"e/idx", b"e/ver", b"k1", b"k2"]
+ETTL_GEN_SLACK = 300     # the generator keeps every operation at least this far (ms, script clock) from every deadline
+ETTL_SLACK = 250         # the oracle judges a read only when it is at least this far from the key's deadline
+
+
+def engine_ttl_case(seed, i, engine, tier):
+    """`engine` suite on the in-memory engine with a ttl per put and real sleeps: the model (KB.MemTTL: clock in ms,
+    every due timer fires before every operation) and the real timers must agree on every read. Real timers fire
+    "soon after" their deadline and the script's own operations take a little time, so every operation keeps
+    >= 250 ms (script clock) from every armed deadline - also from the deadlines of overwritten values, whose
+    timers must do nothing. Variants 0 and 1 are the two renewal shapes (overwrite / delete + put-if-absent of an
+    index+version pair written in one batch); the others are random schedules."""
+    r = rng_for(seed, "c17e/%d" % i)
+    h = lambda b: hx(b)
+    lines = ["cfg engine=%s" % engine]
+    if i % 10 == 0:
+        k, n = b"k1", b"n1"
+        lines += ["batch put:%s:%s:1 put:%s:%s" % (h(k), h(b"v1"), h(n), h(b"keep")), "sleep 550",
+                  "batch put:%s:%s:1" % (h(k), h(b"v2")), "sleep 700", "get %s" % h(k), "get %s" % h(n), "dump",
+                  "sleep 600", "get %s" % h(k), "get %s" % h(n), "dump"]
+        return core.Case("engine", lines, {"engine": engine, "engine_ttl": True})
+    if i % 10 == 1:
+        ix, ver = b"e/idx", b"e/ver"
+        lines += ["batch pine:%s:%s:1 pine:%s:%s:1" % (h(ix), h(b"r1"), h(ver), h(b"o1")), "sleep 550",
+                  "batch del:%s del:%s" % (h(ix), h(ver)),
+                  "batch pine:%s:%s:1 pine:%s:%s:1" % (h(ix), h(b"r2"), h(ver), h(b"o2")), "sleep 700",
+                  "get %s" % h(ix), "get %s" % h(ver), "dump", "batch pine:%s:%s:1" % (h(ix), h(b"dup")),
+                  "batch cas:%s:%s:%s:1" % (h(ix), h(b"r3"), h(b"r2")), "get %s" % h(ix), "sleep 600", "get %s" % h(ver),
+                  "get %s" % h(ix), "sleep 700", "get %s" % h(ix), "dump", "batch pine:%s:%s" % (h(ix), h(b"again")), "get %s" % h(ix)]
+        return core.Case("engine", lines, {"engine": engine, "engine_ttl": True})
+    keys = r.sample(ETTL_KEYS, r.randint(2, 4))
+    vals = [b"v%d" % j for j in range(1, 40)]
+    vi = [0]
+    clock = 0
+    deadlines = []           # every deadline ever armed (script clock)
+    shadow = {}              # key -> (val, deadline or None), the generator's idea (only to make conditions hold often)
+    phase = 1400 if tier == "quick" else r.choice([1400, 2200, 3000])
+    ttls = [0, 1, 1, 1] if tier == "quick" else [0, 1, 1, 1, 2]
+
+    def cur(k):
+        e = shadow.get(k)
+        if e and e[1] is not None and clock >= e[1]:
+            return None
+        return e
+
+    def nextval():
+        vi[0] += 1
+        return vals[vi[0] % len(vals)]
+
+    def sleep_to_safe(lo=100, hi=900):
+        nonlocal clock
+        cands = [g for g in range(lo, hi + 50, 50) if all(abs(clock + g - d) >= ETTL_GEN_SLACK for d in deadlines)]
+        g = r.choice(cands) if cands else max(deadlines) + ETTL_GEN_SLACK - clock
+        lines.append("sleep %d" % g)
+        clock += g
+
+    while clock <= phase:
+        x = r.random() if len(lines) > 1 else 0.0     # the first operation is a write
+        if x < 0.6:
+            ops = []
+            local = dict((k, cur(k)) for k in keys)
+            pair = r.random() < 0.25 and len(keys) >= 2
+            ttl = r.choice(ttls)
+            for j, k in enumerate(r.sample(keys, 2) if pair else [r.choice(keys) for _ in range(r.choice([1, 1, 2, 3]))]):
+                if not pair:
+                    ttl = r.choice(ttls)
+                suffix = ":%d" % ttl if ttl or r.random() < 0.3 else ""
+                y = r.random()
+                v = nextval()
+                e = local.get(k)
+                if y < 0.15:
+                    ops.append("del:%s" % h(k))
+                    local[k] = None
+                    continue
+                if y < 0.4 and e is None:
+                    ops.append("pine:%s:%s%s" % (h(k), h(v), suffix))
+                elif y < 0.6 and e is not None:
+                    ops.append("cas:%s:%s:%s%s" % (h(k), h(v), h(e[0]), suffix))
+                else:
+                    ops.append("put:%s:%s%s" % (h(k), h(v), suffix))
+                local[k] = (v, clock + 1000 * ttl if ttl else None)
+                if ttl:
+                    deadlines.append(clock + 1000 * ttl)
+            lines.append("batch " + " ".join(ops))
+            for k in keys:
+                if local[k] is None:
+                    shadow.pop(k, None)
+                else:
+                    shadow[k] = local[k]
+        elif x < 0.7:
+            k = r.choice(keys)
+            lines.append("del %s" % h(k))
+            shadow.pop(k, None)
+        else:
+            lines += ["get %s" % h(k) for k in r.sample(keys, r.randint(1, len(keys)))]
+            if r.random() < 0.5:
+                lines.append("dump")
+        if r.random() < 0.7:
+            sleep_to_safe()
+    # past every deadline: what had a ttl is gone, what had none is still there
+    late = [d for d in deadlines if d + ETTL_GEN_SLACK > clock]
+    if late:
+        lines.append("sleep %d" % (max(late) + ETTL_GEN_SLACK - clock))
+    lines += ["get %s" % h(k) for k in keys] + ["dump"]
+    return core.Case("engine", lines, {"engine": engine, "engine_ttl": True})
+
+
+def engine_ttl_oracle(case):
+    """C17 on the engine's own transcript, with the script clock (sum of the sleeps) and the acknowledged batches:
+    a value younger than its ttl is there, a value without ttl never vanishes, an expired value is gone (and can be
+    put-if-absent again). Reads closer than ETTL_SLACK to the key's deadline are not judged."""
+    clock = 0
+    ref = {}       # key -> (val, deadline or None, ttl in ms)
+
+    def must_be_present(k):
+        e = ref.get(k)
+        return e is not None and (e[1] is None or clock <= e[1] - ETTL_SLACK)
+
+    def seen(i, line, out, k, got):
+        e = ref.get(k)
+        if e is None:
+            if got is not None:
+                return ("line %d: %s -> %s: %s is present although it was never written / deleted / has expired"
+                        % (i + 1, line, out, k), "absent-key-present")
+            return None
+        v, d, ttl = e
+        if d is None:
+            if got != v:
+                return ("line %d: %s -> %s: %s was last written WITHOUT a ttl (value %s) and must never vanish or change; "
+                        "the engine has %s" % (i + 1, line, out, k, v, got), "no-ttl-value-removed")
+            return None
+        if clock <= d - ETTL_SLACK:
+            if got != v:
+                return ("line %d: %s -> %s: the newest write of %s (value %s) is %d ms old (script clock) and carries a ttl of "
+                        "%d ms, the engine has %s: the timer of an OLDER write removed the newer value"
+                        % (i + 1, line, out, k, v, clock - (d - ttl), ttl, got), "young-value-removed")
+            return None
+        if clock >= d + ETTL_SLACK:
+            if got is not None:
+                return ("line %d: %s -> %s: %s expired %d ms ago (script clock) and is still there" % (i + 1, line, out, k, clock - d),
+                        "expired-value-present")
+            del ref[k]
+            return None
+        if got is None:
+            del ref[k]
+        return None
+
+    for i, (line, out) in enumerate(zip(case.lines, case.impl)):
+        t, o = line.split(), out.split()
+        if t and t[0] == "sleep":
+            clock += int(t[1])
+            continue
+        if not t or len(o) < 2:
+            continue
+        if t[0] == "batch":
+            ops = [x.split(":") for x in t[1:] if "=" not in x]
+            first = {}
+            for f in ops:
+                first.setdefault(hist.unhx(f[1]), f)
+            for k, f in first.items():
+                if f[0] == "pine" and o[1] == "ok" and must_be_present(k):
+                    return ("line %d: %s -> %s: put-if-absent of %s succeeded although its value %s is live (%s)"
+                            % (i + 1, line, out, k, ref[k][0], "no ttl" if ref[k][1] is None else "younger than its ttl"),
+                            "young-value-removed" if ref[k][1] is not None else "no-ttl-value-removed")
+                if f[0] == "cas" and len(ops) == 1 and o[1] != "ok" and must_be_present(k) and ref[k][0] == hist.unhx(f[3]):
+                    return ("line %d: %s -> %s: compare-and-swap on the live value %s of %s fails" % (i + 1, line, out, ref[k][0], k),
+                            "young-value-removed" if ref[k][1] is not None else "no-ttl-value-removed")
+            if o[1] == "ok":
+                for f in ops:
+                    k = hist.unhx(f[1])
+                    if f[0] == "del":
+                        ref.pop(k, None)
+                    else:
+                        n = {"pine": 3, "put": 3, "cas": 4}[f[0]]
+                        ttl = int(f[n]) * 1000 if len(f) > n else 0
+                        ref[k] = (hist.unhx(f[2]), clock + ttl if ttl else None, ttl)
+        elif t[0] == "del" and o[1] == "ok":
+            ref.pop(hist.unhx(t[1]), None)
+        elif t[0] == "get" and o[1] != "err":
+            hit = seen(i, line, out, hist.unhx(t[1]), None if o[1] == "nf" else hist.unhx(o[1]))
+            if hit:
+                return hit
+        elif t[0] == "dump" and o[1] != "err":
+            got = {} if o[1] == "-" else dict((hist.unhx(x.split("=")[0]), hist.unhx(x.split("=")[1])) for x in o[1].split(","))
+            for k in sorted(set(got) | set(ref)):
+                hit = seen(i, line, out, k, got.get(k))
+                if hit:
+                    return hit
+    return None
+
 
 
 def raw_of(ik):
@@ -235,6 +432,8 @@ def check(rep, tier, seed):
     cases = [gen_case(seed, i, "tikv") for i in range(n)]
     cases += [concurrent_compact_case(v) for v in range(3)]
     cases += [native_case(seed, i, ["badger", "memkv"][i % 2]) for i in range(4 if tier == "quick" else 96)]
+    # the in-memory engine's own ttl timers, at the engine boundary (model: KB.MemTTL, theorems: KB.Props.C17Mem)
+    cases += [engine_ttl_case(seed, i, ENGINE_TTL_ENGINES[i % 2], tier) for i in range(2 if tier == "quick" else 20)]
     cases += [renew_case(seed, i, ["update", "recreate"][i % 2]) for i in range(2 if tier == "quick" else 24)]
     core.run_cases(cases, workers=14)
     for c in cases:
@@ -244,10 +443,13 @@ def check(rep, tier, seed):
                     break
                 c.run()
             rep.cov["renew_cases_conclusive"] = rep.cov.get("renew_cases_conclusive", 0) + (1 if renew_conclusive(c) else 0)
-    pick = lambda c: concurrent_oracle(c) if c.meta.get("concurrent") else renew_oracle(c) if c.meta.get("renew") else native_oracle(c) if c.meta.get("native") else oracle(c)
+    pick = lambda c: engine_ttl_oracle(c) if c.meta.get("engine_ttl") else concurrent_oracle(c) if c.meta.get("concurrent") else renew_oracle(c) if c.meta.get("renew") else native_oracle(c) if c.meta.get("native") else oracle(c)
     if core.judge(rep, "C17", cases, pick):
         return
     rep.assumptions += ["events TTL 1 s through the verif setter; model time advances only by the script's sleeps (300 ms = young, 1300 ms = old); "
                         "the oracle allows 600 ms of scheduling slack",
+                        "in-memory engine ttl (engine suite, KB.MemTTL / KB.Props.C17Mem): the model clock is the script's sleeps in ms; real "
+                        "timers are assumed to fire within 250 ms after their deadline and never before it (every operation of a "
+                        "script keeps >= 250 ms from every armed deadline); Badger's own ttl (1 s granularity) is not modelled",
                         "engine without native TTL: tikv mock. On memkv/badger expiry is the engine's own TTL (its clock is assumed); "
                         "what is proved there is that the TTL is passed exactly for keys under <prefix>/events/ (ttl_only_for_event_keys)"]
